@@ -626,6 +626,9 @@ func checkC19(c *Check) {
 			var named types.Object
 			{
 				ce := ast.Unparen(cond)
+				if raw := r.F.condRaw(b); raw != nil {
+					ce = ast.Unparen(raw) // as written: an expanded named boolean is still grouped by its name
+				}
 				if u, ok := ce.(*ast.UnaryExpr); ok && u.Op == token.NOT {
 					ce, negate = ast.Unparen(u.X), true
 				}
